@@ -643,10 +643,27 @@ impl<'tcx> hir::intravisit::Visitor<'tcx> for UnsafeVisitor<'tcx> {
 fn extract<'tcx>(tcx: TyCtxt<'tcx>, crate_name: &str) -> J {
     let mut bodies: Vec<J> = Vec::new();
     let mut unsafe_blocks: Vec<J> = Vec::new();
+    let mut consts: Vec<J> = Vec::new();
     for ldid in tcx.mir_keys(()).iter() {
         let ldid: LocalDefId = *ldid;
         let did = ldid.to_def_id();
         let kind = tcx.def_kind(did);
+        if matches!(kind, DefKind::Const { .. } | DefKind::AssocConst { .. }) {
+            // named constants of the crate: their (compile-time) MIR, so that a use of `const AXIS: Axis = Axis(1)` can be read as
+            // the value it names
+            let body = tcx.mir_for_ctfe(did);
+            let mut o: Vec<(String, J)> = vec![
+                ("key".into(), J::Str(tcx.def_path_str(did))),
+                ("kind".into(), J::Str("Const".into())),
+                ("sp".into(), span_json(tcx, tcx.def_span(did))),
+                ("body_sp".into(), span_json(tcx, body.span)),
+                ("name".into(), J::Str(tcx.item_name(did).to_string())),
+            ];
+            o.extend(body_json(tcx, did, body));
+            o.push(("promoted".into(), J::Arr(Vec::new())));
+            consts.push(J::Obj(o));
+            continue;
+        }
         if !matches!(kind, DefKind::Fn | DefKind::AssocFn | DefKind::Closure) {
             continue;
         }
@@ -833,6 +850,7 @@ fn extract<'tcx>(tcx: TyCtxt<'tcx>, crate_name: &str) -> J {
         ("crate".into(), J::Str(crate_name.to_string())),
         ("schema".into(), J::Num(1)),
         ("bodies".into(), J::Arr(bodies)),
+        ("consts".into(), J::Arr(consts)),
         ("unsafe_blocks".into(), J::Arr(unsafe_blocks)),
         ("adts".into(), J::Arr(adts)),
         ("impls".into(), J::Arr(impls)),
